@@ -116,6 +116,10 @@ NcgAOptB == [k |-> "ncg", r |-> [k |-> "seq", xs |-> <<Chr(97), [k |-> "rep", r 
 NcgOptAB == [k |-> "ncg", r |-> [k |-> "seq", xs |-> <<[k |-> "rep", r |-> Chr(97), min |-> 0, max |-> 1, lazy |-> FALSE, q |-> "s"], Chr(98)>>]]   \* (?:a?b)
 LvSeqInit == {Chr(97), Chr(98), NcgAOptB, NcgOptAB}      \* quantified letters in front of quantified variable-length sequences
 QSeqInit == {QStar, QPlus, QOpt, Q(1, 3, FALSE, "n"), QStarL}
+GrpBolOrA == [k |-> "grp", n |-> 0, r |-> [k |-> "alt", xs |-> <<BolL, Chr(97)>>]]                         \* (^|a)
+GrpAOrEps == [k |-> "grp", n |-> 0, r |-> [k |-> "alt", xs |-> <<Chr(97), [k |-> "seq", xs |-> <<>>]>>]]     \* (a|)
+GrpEol == [k |-> "grp", n |-> 0, r |-> EolL]                                                                \* ($)
+LvEmptyGrp == {GrpBolOrA, GrpAOrEps, GrpEol, Chr(98)}       \* groups that come out empty WITHOUT any ? * or { in the pattern
 LvNest == {Chr(97), Chr(98), GrpA, GrpB}                             \* groups under loops under loops
 LvCaseOpt == {Chr(233), Chr(201), Chr(955), Chr(923), Chr(53)}        \* non-ASCII letters next to quantified letters (flag i)
 LvPunct == {Chr(91), Chr(123), Chr(94), Chr(126), Chr(64), Chr(96), Chr(95), Chr(97),
@@ -125,7 +129,8 @@ GrpAStar == [k |-> "grp", n |-> 0, r |-> [k |-> "rep", r |-> Chr(97), min |-> 0,
 NcgBolAOpt == [k |-> "ncg", r |-> [k |-> "seq", xs |-> <<BolL, [k |-> "rep", r |-> Chr(97), min |-> 0, max |-> 1, lazy |-> FALSE, q |-> "s"]>>]]
 AltEolB == [k |-> "ncg", r |-> [k |-> "alt", xs |-> <<EolL, Chr(98)>>]]                      \* (?:$|b)
 AltABol == [k |-> "ncg", r |-> [k |-> "alt", xs |-> <<Chr(97), BolL>>]]                      \* (?:a|^)
-LvDynEmpty == {BolL, EolL, Chr(97), Bref(1), GrpAStar, NcgBolAOpt, AltEolB, AltABol}    \* bodies that match empty only dynamically
+AltBolEolB == [k |-> "ncg", r |-> [k |-> "alt", xs |-> <<BolL, EolL, Chr(98)>>]]               \* (?:^|$|b)
+LvDynEmpty == {BolL, EolL, Chr(97), Bref(1), GrpAStar, NcgBolAOpt, AltEolB, AltABol, AltBolEolB}    \* bodies that match empty only dynamically
 QCount2 == {Q(2, 2, FALSE, "n"), Q(2, -1, FALSE, "n"), Q(1, 2, FALSE, "n"), Q(3, 3, FALSE, "n"), QPlus, QStar, Q(2, 2, TRUE, "n")}
 LvAstral == {Chr(66560), Chr(769), Chr(97), Dot, Cls(FALSE, <<IC(66560), IC(97)>>)}
 LvLoop == {Chr(97), Chr(98), BolL, EolL, Bref(1)}
